@@ -644,6 +644,11 @@ class Sim(object):
                  "warmup_delay", 0), (int, float)) else 0,
              "addsing": bool((pr.get("options") or {}).get("singleton")) if isinstance(pr.get("options"), dict) else False}
         q["opts"] = self._set_opts(pr.get("options")) if cmd == "set" else []
+        q["matches"] = []
+        if q["pattern"]:
+            import fnmatch
+            q["matches"] = [w.name.lower() for w in self.arb.watchers
+                            if fnmatch.fnmatchcase(w.name.lower(), pr["name"].lower())]
         self.rec("req", x=cidn, r=str(cmd), w=str(pr.get("name", "")), a=1 if pr.get("waiting") else 0,
                  q=q)
         self.block_counts = {}
